@@ -131,6 +131,19 @@ SPECS["C16"] = dict(
     examples="(* non-vacuity: GraphP computes edges/nodes of two concrete programs (ex1, ex2) by vm_compute *)\n")
 
 
+SPECS["C10"] = dict(
+    title="ungrammatical scripts always raise BlackbirdSyntaxError at the offending token",
+    imports="From Coq Require Import List Arith Bool String Lia.\nImport ListNotations.\nFrom BB Require Import Ebnf Viable Chars Lexer G4Data EbnfP LexerP LrecP ViableP GrammarP.",
+    items=[
+        dict(name="recognise_correct_lr", comment="the oracle for 'is a sentence of the Blackbird grammar': for every token sequence the recogniser decides membership in the language of the grammar as written (left-recursive expression rule), on the grammar regenerated from blackbird.g4"),
+        dict(name="pg_lr_equiv"),
+        dict(name="viable_prefix_pg", comment="the oracle for 'the first token that makes the text ungrammatical': for every token sequence, the viable-prefix decision is exact"),
+        dict(name="pg_prod"),
+        dict(name="lex_spec", comment="positions (line, column) of tokens come from the lexer, which is the unique maximal-munch tokenisation"),
+    ],
+    examples="(* non-vacuity: GrammarP.prod_check_ok exhibits a derivable word for each of the 35 rules; ViableP has worked examples *)\n")
+
+
 def main():
     which = sys.argv[1:] or sorted(SPECS)
     for p in which:
